@@ -123,7 +123,7 @@ func TestVerifC16(t *testing.T) {
 	defer runtime.GOMAXPROCS(origProcs)
 	pool := rec.RNG("pool").Bytes(6 << 20)
 
-	n := env.Pick(400, 5000)
+	n := env.Pick(400, 480)
 	light := os.Getenv("C16_LIGHT") == "1" // the quick-tier race unit: fewer repositories
 	if light {
 		n = 32
